@@ -295,9 +295,13 @@ package runtime
 //@ extern sync.(*Pool).Get
 //@ modifies nothing
 //@ ensures p == addr(ctxPool) ==> typeis(result, *Task) && result.(*Task) != nil && fresh(result.(*Task)) && result.(*Task).Regs.count <= 6
+// ... and comes out of it zeroed (the obligation at Put, and ctxPool.New)
+//@ ensures p == addr(ctxPool) ==> zeroed(result.(*Task))
 
+// pool discipline: a task goes back to the pool zeroed - whatever fields Task has (C15)
 //@ extern sync.(*Pool).Put
 //@ modifies nothing
+//@ requires[C15] p == addr(ctxPool) ==> typeis(x, *Task) && x.(*Task) != nil && zeroed(x.(*Task))
 
 //@ func GetContext
 //@ props C01 C15
@@ -305,6 +309,10 @@ package runtime
 //@ ensures fresh(result)
 //@ ensures result != nil && result.stackCur != nil && result.stackCur == result.stackHeader && fresh(result.stackCur)
 //@ ensures result.stackCur.Data != nil && result.stackCur.Before == nil && result.Regs.count <= 6
+// apart from its fresh, empty root scope the task is blank
+//@ ensures[C15] result.private == nil && result.funcCall == nil && result.funcCheck == nil && result.input == nil && result.signal == nil
+//@ ensures[C15] !result.loopBreak && !result.loopContinue && !result.procExit && len(result.callRef) == 0 && result.name == "" && result.Regs.count == 0
+//@ ensures[C15] forall k string :: !dom(result.stackCur.Data, k)
 
 //@ func PutContext
 //@ props C01 C15
